@@ -4,8 +4,8 @@ import gens, blk, compcases as cc
 from capi import Lib, Buf
 from ctypes import c_int, byref
 
-THEOREMS = ["C06_fast_generic_strict", "C06_fast_extState_strict", "C06_fastReset_history_strict", "C06_destSize_strict", "C06_hc_mid_strict", "C06_hc_mid_destSize_strict", "C06_hc_chain_strict", "C06_hc_opt_strict"]
-CORRESPONDENCE = [cc.MID_CORR, cc.CHAIN_CORR, cc.CHAIN_SEARCH_CORR,
+THEOREMS = ["C06_fast_generic_strict", "C06_fast_extState_strict", "C06_fastReset_history_strict", "C06_destSize_strict", "C06_hc_mid_strict", "C06_hc_mid_destSize_strict", "C06_hc_chain_strict", "C06_hc_opt_strict", "C06_hc_chain_destSize_strict", "C06_hc_opt_destSize_strict"]
+CORRESPONDENCE = [cc.MID_CORR, cc.CHAIN_CORR, cc.CHAIN_SEARCH_CORR, cc.CHAIN_DICT_CORR,
                   "Model.FastApi one-shot entry points == liblz4 (bytes, return value, context) on the same cases"]
 ORACLES = ["block", "mid", "chain"]
 RULE = ("every successful output of {default, fast, extState, fastReset history, destSize, HC one-shot levels 1..12 (+favorDecSpeed), HC destSize, "
@@ -24,6 +24,8 @@ def gen_cases(tier, seed):
     rng = random.Random(seed * 31 + 6)
     n = {"quick": 64, "search": 256, "thorough": 600}[tier]
     cases = [{"bseed": rng.randrange(1 << 48), "count": 20, "maxn": 70000 if i % 5 == 0 else 4000} for i in range(n)]
+    # end-of-block restrictions: inputs whose last possible match start carries competing candidates, every compressor
+    cases += [{"bseed": rng.randrange(1 << 48), "count": 6, "mode": "endgame"} for i in range({"quick": 6, "search": 24, "thorough": 60}[tier])]
     cases += cc.mid_gen_cases(rng, tier, 0.5)
     cases += cc.chain_gen_cases(rng, tier, 0.5)
     return cases
@@ -40,10 +42,14 @@ def one(st, rng, res, info, maxn):
     lib = st["lib"]
     kind = rng.choice(gens.KINDS)
     n = gens.size(rng, maxn)
+    fam = rng.choice(["fast", "fast", "hc", "hc", "dest", "hcdest", "stream", "hcstream", "hist", "save", "hcsave"])
+    if maxn >= 20000 and fam in ("fast", "hc", "hcdest") and rng.random() < 0.6:
+        # window-edge inputs (> 64 KB, repeats at distances 65533..65540, also from the very first byte): an offset of
+        # 65536 is written as 0, which the format excludes (seeded C06_5 / C01_5)
+        kind = rng.choice(gens.FAR_KINDS); n = rng.choice([65536 + 40, 66000, 70000])
     src = gens.data(rng, kind, n)
     b = cc.bound(n)
     cap = rng.choice([b, b, b + 1, max(0, b - 1), n, n // 2 + 8, rng.randrange(0, b + 2)])
-    fam = rng.choice(["fast", "fast", "hc", "hc", "dest", "hcdest", "stream", "hcstream", "hist", "save", "hcsave"])
     info = dict(info, dkind=kind, n=n, cap=cap, fam=fam)
     def fail(what, **kw):
         res["fails"].append({"status": "prop_fail", "what": what, "detail": dict(info, **kw)})
@@ -185,6 +191,25 @@ def run_case(st, case):
         return cc.run_chain_case(st, case, chain_judge(st))
     rng = random.Random(case["bseed"])
     res = cc.new_res()
+    if case.get("mode") == "endgame":
+        for j in range(case["count"]):
+            n = rng.choice([48, 59, 64, 100, 300, 1000])
+            src = gens.data(rng, "endgame", n)
+            info = {"bseed": case["bseed"], "j": j, "dkind": "endgame", "n": n}
+            b = cc.bound(n)
+            for p in (1, 2, 3, 4, 9, 10, 12):
+                r, out = cc.run_hc(st, rng.choice(["hc", "hc_ext", "hc_fr"]), src, b, p, res, dict(info, junk=rng.randrange(1 << 30)))
+                e = strict(st, b"", out, src) if r > 0 else "returned %d with capacity = bound" % r
+                if e:
+                    res["fails"].append({"status": "prop_fail", "what": "hc level %d: %s" % (p, e), "detail": dict(info, src=src.hex() if n < 400 else None, out=out.hex() if 0 < r < 400 else None)})
+                elif blk.nontrivial_block(out): res["keys"].add(cc.key_of(src, "hc", p, b))
+            for acc in (1, 7):
+                r, out = cc.run_fast(st, rng.choice(["default", "fast", "ext"]), src, b, acc, res, dict(info, junk=rng.randrange(1 << 30)))
+                e = strict(st, b"", out, src) if r > 0 else "returned %d with capacity = bound" % r
+                if e:
+                    res["fails"].append({"status": "prop_fail", "what": "fast accel %d: %s" % (acc, e), "detail": dict(info, src=src.hex() if n < 400 else None)})
+                elif blk.nontrivial_block(out): res["keys"].add(cc.key_of(src, "fast", acc, b))
+        return cc.finish(res, "endgame")
     for j in range(case["count"]):
         one(st, rng, res, {"bseed": case["bseed"], "j": j}, case["maxn"])
     return cc.finish(res, "mix")
